@@ -189,6 +189,8 @@ PROPS = {
                               'C03_horizontal_grouping_produces_nests', 'C03_groups_at_any_depths_are_nested_or_disjoint',
                               'C03_consumer_side_instructions_list_one_group_each',
                               'C03_consumer_lists_of_two_groups_are_nested_or_disjoint',
+                              'C03_consumer_side_instructions_are_emitted_by_depth',
+                              'C03_later_consumer_list_is_inside_or_disjoint_from_an_earlier_one',
                               'C03_generator_invents_no_instruction', 'C03_mode_table', 'C03_policy_configs_have_a_mode', 'C03_policy_activations_are_per_tensor',
                               'C03_generated_last_instruction_is_read_by_exactly_the_listed_operators',
                               'C03_generated_last_instruction_is_read_by_exactly_the_listed_operators_skipping_no_quantize',
